@@ -20,7 +20,7 @@ def names(n):
     return {i + 2: ('f%d' % (i + 1)).encode() for i in range(n)}
 
 
-def build_world(eng, nfiles, max_edges, with_always=True, runid=None, fixed=None, edge_modes=(None, b'm', b'c')):
+def build_world(eng, nfiles, max_edges, with_always=True, runid=None, fixed=None, edge_modes=(None, b'm', b'c'), row_kw=None):
     R = runid if runid is not None else z3.Int('R')
     w = DBWorld(eng, R)
     eng.world = w
@@ -32,7 +32,7 @@ def build_world(eng, nfiles, max_edges, with_always=True, runid=None, fixed=None
         w.sym_file(1, ALWAYS, tag='always', fs_choices=(None,), stamp_choices=(None,), csum_choices=(None,),
                    fixed={'is_generated': None, 'is_override': None, 'checked_runid': None, 'failed_runid': None})
     for i in ids:
-        w.sym_file(i, names(nfiles)[i], fixed=(fixed or {}).get(i))
+        w.sym_file(i, names(nfiles)[i], fixed=(fixed or {}).get(i), **(row_kw or {}))
     w.nedges = 0
 
     def edges_for(t):
@@ -212,7 +212,7 @@ def model_of(eng, w, R, ids, extra=None):
             x = m.eval(v, model_completion=True)
             if z3.is_bool(x):
                 return z3.is_true(x)
-            return x.as_signed_long()
+            return x.as_long() if z3.is_int_value(x) else x.as_signed_long()
         return repr(v)
     out = {'runid': val(R), 'files': {}, 'fs': {}, 'deps': []}
     for rid, row in w.files.items():
